@@ -54,10 +54,10 @@ run)
   git apply "$d/patch.diff" || { echo "RUN: patch does not apply"; exit 2; }
   for id in "$@"; do
     t0=$(date +%s)
-    (cd /verif && ./check "$id" quick >/tmp/seed_run_$id.log 2>&1); rc=$?
+    (cd /verif && ./check "$id" ${TIER:-quick} >/tmp/seed_run_$id.log 2>&1); rc=$?
     t1=$(date +%s)
     nv=$(grep -c '^VIOLATION' /tmp/seed_run_$id.log)
-    echo "RUN: seed=$name check=$id exit=$rc violations_lines=$nv time=$((t1-t0))s :: $(grep -m1 '^violation:' /tmp/seed_run_$id.log | cut -c1-200)"
+    tt=""; [ "${TIER:-quick}" = thorough ] && tt="[thorough]"; echo "RUN$tt: seed=$name check=$id exit=$rc violations_lines=$nv time=$((t1-t0))s :: $(grep -m1 '^violation:' /tmp/seed_run_$id.log | cut -c1-200)"
   done
   git -C /repo checkout -q -- .
   ;;
